@@ -51,11 +51,20 @@ class SerializationContext:
         self.save_directory = save_directory
         self.var_path = []
         self.serialized = set()
+        self.serialized_paths = {}
 
     def serialize(self, var_path: List[str], data_path: Path) -> SerializedPath:
         if self.save_directory:
             # Creates a relative path from the configuration qualified name
             path = Path(*var_path)
+
+            # Two configurations can have a data parameter with the same name:
+            # do not let the second one overwrite the data of the first
+            index = 0
+            while self.serialized_paths.get(path, data_path) != data_path:
+                index += 1
+                path = Path(*var_path[:-1], f"{var_path[-1]}.{index}")
+            self.serialized_paths[path] = data_path
 
             # Creates the directory if needed
             dest = self.save_directory / path
